@@ -46,6 +46,9 @@ struct Shared {
     ready_wakers: Mutex<Vec<std::task::Waker>>,
     /// ops X / x: 1 + the builder call whose service fails its next readiness check (once); 0 = none
     fail_call: AtomicUsize,
+    fail_left: AtomicUsize,
+    /// number of readiness checks made so far (all instances)
+    ready_polls: AtomicUsize,
     /// instantiations of each builder call's service factory so far, and (cid, ordinal of the instance that served it)
     insts: Mutex<[usize; 16]>,
     served_gen: Mutex<Vec<(u64, usize, usize)>>,
@@ -63,12 +66,17 @@ where
     type Error = S::Error;
     type Future = S::Future;
     fn poll_ready(&self, cx: &mut std::task::Context<'_>) -> std::task::Poll<Result<(), Self::Error>> {
+        self.1.ready_polls.fetch_add(1, Ordering::SeqCst);
         if self.1.blocked.load(Ordering::SeqCst) {
             self.1.ready_wakers.lock().unwrap().push(cx.waker().clone());
             return std::task::Poll::Pending;
         }
         // a readiness failure armed for this builder call: the first instance of it that is asked fails, once
-        if self.1.fail_call.compare_exchange(self.2 + 1, 0, Ordering::SeqCst, Ordering::SeqCst).is_ok() {
+        if self.1.fail_call.load(Ordering::SeqCst) == self.2 + 1 {
+            // (ops Y: twice in a row — the replacement instance fails its very first readiness check as well)
+            if self.1.fail_left.fetch_sub(1, Ordering::SeqCst) <= 1 {
+                self.1.fail_call.store(0, Ordering::SeqCst);
+            }
             return std::task::Poll::Ready(Err(Default::default()));
         }
         self.0.poll_ready(cx)
@@ -257,6 +265,7 @@ fn start(w: usize, l: usize, chain: &[String], dir: &PathBuf, sh: &Arc<Shared>, 
     let (tx, rx) = mpsc::channel::<Result<(ServerHandle, Vec<Addr>), String>>();
     let chain = chain.to_vec();
     let dir = dir.clone();
+    let sh_outer = sh.clone();
     let sh = sh.clone();
     let thread = std::thread::spawn(move || {
         let body = async move {
@@ -417,6 +426,10 @@ fn start(w: usize, l: usize, chain: &[String], dir: &PathBuf, sh: &Arc<Shared>, 
             if block_on(handle.resume()).is_none() {
                 return Err("server did not acknowledge a command within 6 s of starting".into());
             }
+            // every worker makes its initial readiness checks right after start-up (one per service): wait for them, so that
+            // what a scenario arms later meets the worker it is meant for
+            let total: usize = sh_outer.insts.lock().unwrap().iter().sum();
+            let _ = wait_until_for(Duration::from_secs(3), || sh_outer.ready_polls.load(Ordering::SeqCst) >= total);
             let handle2 = handle.clone();
             Ok(Running { handle, handle2, addrs, thread })
         }
@@ -535,13 +548,16 @@ fn run_once(line: &str, dir: &PathBuf, quiet: Duration) -> String {
             b'x' => {
                 // arm a readiness failure of the service of this listener (it strikes when a worker next asks that service)
                 let tok: usize = rest.parse().unwrap();
+                sh.fail_left.store(1, Ordering::SeqCst);
                 sh.fail_call.store(tok_call[tok] + 1, Ordering::SeqCst);
             }
-            b'c' | b'E' | b'K' | b'X' => {
+            b'c' | b'E' | b'K' | b'X' | b'Y' => {
                 let tok: usize = rest.parse().unwrap();
                 cid += 1;
-                if op.as_bytes()[0] == b'X' {
+                if op.as_bytes()[0] == b'X' || op.as_bytes()[0] == b'Y' {
                     // the same, and a client connects: the worker that takes the connection asks its services at once
+                    // (Y: the replacement instance fails its first readiness check too)
+                    sh.fail_left.store(if op.as_bytes()[0] == b'Y' { 2 } else { 1 }, Ordering::SeqCst);
                     sh.fail_call.store(tok_call[tok] + 1, Ordering::SeqCst);
                 }
                 if op.as_bytes()[0] == b'K' {
